@@ -117,14 +117,14 @@ func leafSummary(ls []addLeaf) string {
 			name := "?"
 			if call, ok := l.v.(*ssa.Call); ok {
 				if callee := call.Call.StaticCallee(); callee != nil {
-					name = callee.Name() + "()"
+					name = pinName(callee) + "()"
 				} else if b, ok := call.Call.Value.(*ssa.Builtin); ok {
 					name = b.Name() + "()"
 				}
 			} else if l.v != nil {
 				name = l.v.Name()
 				if p, ok := l.v.(*ssa.Parameter); ok {
-					name = "param:" + p.Name()
+					name = "param:" + pinParamName(p)
 				}
 			}
 			set[name] = true
